@@ -235,5 +235,5 @@ PLAN["C14"] = {"quick": [job("native", "replies", 16, 600), job("native", "gates
                             miri("clones", 2, 4, 3000), job("native", "storm", 16, 3000), miri("storm", 4, 8, 3000), job("tsan", "replies", 8, 1800, args=["--scale", "0.05"]), job("tsan", "gates", 8, 1800, args=["--scale", "0.05"]),
                             job("tsan", "storm", 8, 1800, args=["--scale", "0.02"])],
                "min_evaluations": {"quick": 500, "thorough": 500},
-               "assumptions": COMMON_ASSUMPTIONS + ["connections through clones are made between driver calls (connect takes &mut self on the harness' clone; concurrent connects while a step runs are not generated)",
+               "assumptions": COMMON_ASSUMPTIONS + ["connections through clones are made between driver calls, and (every second clones case) by a second thread while the model sends, judged through Release/Acquire counters only",
                                                    "part gates: wakers are only invoked from handler code (executor threads), every gate is eventually opened whatever the schedule, so a stall is a violation"]}
